@@ -34,10 +34,10 @@ theorem set_take_succ {α} (l : List α) (n : Nat) (x : α) (hn : n < l.length) 
 
 /-- The storage loop, generalised over the loop state.  `idx` is the number of rows written so far,
 `idx * s` the counter value at which the next row is due. -/
-theorem loop_spec (step : Nat → Vec → Vec) (s m : Nat) (hs : 0 < s) :
+theorem loop_spec (g : Bool) (step : Nat → Vec → Vec) (s m : Nat) (hs : 0 < s) :
     ∀ (n i : Nat) (y : Vec) (idx : Nat) (rec : List (Option Vec)),
       i + n = m * s → rec.length = m → i ≤ idx * s → idx * s < i + s →
-      loop step s n i y idx rec =
+      loop g step s n i y idx rec =
         .ok (rec.take idx ++ (List.range (m - idx)).map (fun j => some (iter step i ((idx + j) * s - i) y))) := by
   intro n
   induction n with
@@ -134,5 +134,118 @@ theorem pyRound_nat (n : Nat) : (pyRound (n : Rat)).toNat = n := by
   have := pyRound_int (n : Int)
   simp only [Rat.intCast_natCast] at this
   rw [this]; simp
+
+/-- once every allocated row has been written, the guarded loop only integrates: the record is returned as it is -/
+theorem loop_full (step : Nat → Vec → Vec) (s : Nat) (hs : 0 < s) :
+    ∀ (n i : Nat) (y : Vec) (idx : Nat) (rec : List (Option Vec)), rec.length ≤ idx →
+      loop true step s n i y idx rec = .ok rec := by
+  intro n
+  induction n with
+  | zero => intro i y idx rec _; rfl
+  | succ n ih =>
+    intro i y idx rec h
+    have hs0 : s ≠ 0 := by omega
+    have hlt : ¬ idx < rec.length := by omega
+    unfold loop
+    by_cases hmod : i % s = 0
+    · simp only [hs0, if_false, hmod, if_true, hlt]
+      exact ih (i+1) (step i y) idx rec h
+    · simp only [hs0, if_false, hmod]
+      exact ih (i+1) (step i y) idx rec h
+
+/-- what row `k` of the record holds after the guarded loop has run `steps` steps in total: the state after `k·s` steps if the loop
+got that far, never-written memory otherwise -/
+def rowAt (step : Nat → Vec → Vec) (s steps : Nat) (i : Nat) (y : Vec) (k : Nat) : Option Vec :=
+  if k * s < steps then some (iter step i (k * s - i) y) else none
+
+/-- The guarded storage loop for **every** number of steps, generalised over the loop state: rows below `idx` are kept, rows from
+`idx` on are the states at their sampling instants as far as the integration reaches. -/
+theorem loop_guarded_spec (step : Nat → Vec → Vec) (s m steps : Nat) (hs : 0 < s) :
+    ∀ (n i : Nat) (y : Vec) (idx : Nat) (rec : List (Option Vec)),
+      i + n = steps → rec.length = m → idx ≤ m → i ≤ idx * s → idx * s < i + s →
+      rec.drop idx = List.replicate (m - idx) none →
+      loop true step s n i y idx rec =
+        .ok (rec.take idx ++ (List.range (m - idx)).map (fun j => rowAt step s steps i y (idx + j))) := by
+  intro n
+  induction n with
+  | zero =>
+    intro i y idx rec hin hlen hle h1 h2 hrest
+    have hi : i = steps := by omega
+    simp only [loop]
+    congr 1
+    have : (List.range (m - idx)).map (fun j => rowAt step s steps i y (idx + j)) = List.replicate (m - idx) none := by
+      rw [List.eq_replicate_iff]
+      refine ⟨by simp, ?_⟩
+      intro b hb
+      simp only [List.mem_map, List.mem_range] at hb
+      obtain ⟨j, _, rfl⟩ := hb
+      unfold rowAt
+      have : ¬ (idx + j) * s < steps := by
+        have : (idx + j) * s = idx * s + j * s := Nat.add_mul _ _ _
+        omega
+      simp [this]
+    rw [this, ← hrest, List.take_append_drop]
+  | succ n ih =>
+    intro i y idx rec hin hlen hle h1 h2 hrest
+    have hs0 : s ≠ 0 := by omega
+    by_cases hfull : idx = m
+    · subst hfull
+      rw [loop_full step s hs (n+1) i y idx rec (by omega)]
+      simp [← hlen]
+    · have hidx : idx < m := by omega
+      unfold loop
+      simp only [hs0, if_false]
+      by_cases hmod : i % s = 0
+      · have heq := (mod_zero_iff i s idx hs h1 h2).mp hmod
+        simp only [hmod, if_true, hlen, hidx]
+        rw [ih (i+1) (step i y) (idx+1) (rec.set idx (some y)) (by omega) (by simp [hlen]) (by omega)
+              (by rw [Nat.add_mul]; omega) (by rw [Nat.add_mul]; omega)
+              (by
+                rw [List.drop_set_of_lt (by omega)]
+                have := congrArg (List.drop 1) hrest
+                rw [List.drop_drop] at this
+                rw [this, List.drop_replicate, Nat.sub_sub])]
+        congr 1
+        rw [set_take_succ _ _ _ (by omega)]
+        have hm : m - idx = (m - (idx + 1)) + 1 := by omega
+        rw [hm, List.range_succ_eq_map, List.map_cons, List.append_assoc]
+        congr 1
+        simp only [List.singleton_append, List.map_map]
+        congr 1
+        · unfold rowAt
+          have : i < steps := by omega
+          simp [heq, this, iter]
+        · apply List.map_congr_left
+          intro j _
+          simp only [Function.comp]
+          unfold rowAt
+          have e1 : idx + (j + 1) = idx + 1 + j := by omega
+          rw [e1]
+          by_cases hlt : (idx + 1 + j) * s < steps
+          · simp only [hlt, if_true]
+            congr 1
+            have h3 : (idx + 1 + j) * s = idx * s + (j+1) * s := by
+              rw [show idx + 1 + j = idx + (j+1) by omega]; exact Nat.add_mul _ _ _
+            have : s ≤ (j+1) * s := Nat.le_mul_of_pos_left s (by omega)
+            have e : (idx + 1 + j) * s - i = ((idx + 1 + j) * s - (i + 1)) + 1 := by omega
+            rw [e, iter_succ_left]
+          · simp [hlt]
+      · have hne : idx * s ≠ i := fun h => hmod ((mod_zero_iff i s idx hs h1 h2).mpr h)
+        simp only [hmod, if_false]
+        rw [ih (i+1) (step i y) idx rec (by omega) hlen hle (by omega) (by omega) hrest]
+        congr 2
+        apply List.map_congr_left
+        intro j _
+        unfold rowAt
+        by_cases hlt : (idx + j) * s < steps
+        · simp only [hlt, if_true]
+          congr 1
+          have hge : i + 1 ≤ (idx + j) * s := by
+            have : (idx + j) * s = idx * s + j * s := Nat.add_mul _ _ _
+            omega
+          have e : (idx + j) * s - i = ((idx + j) * s - (i + 1)) + 1 := by omega
+          rw [e, iter_succ_left]
+        · simp [hlt]
+
 
 end PyRates.Solver
